@@ -1663,6 +1663,9 @@ def run_case(ctx, case):
     if case.get('kind') in ('api', 'registry', 'fill', 'v4delay'):
         from props import c12_ext
         return c12_ext.run_case(ctx, case)
+    if case.get('kind') in ('num', 'azel'):
+        from props import c12_num
+        return c12_num.run_case(ctx, case)
     if case.get('kind') == 'unpack':
         return run_unpack(ctx, case)
     if case.get('kind') == 'builtin':
@@ -1755,6 +1758,8 @@ def run(ctx):
         ctx.count('concat_parts=%d' % len(cs))
     from props import c12_ext
     c12_ext.run(ctx)
+    from props import c12_num
+    c12_num.run(ctx)
     if ctx.tier == 'thorough':
         cross_check_in_coq(ctx)
 
@@ -1789,6 +1794,6 @@ def replay(ctx, doc):
     logging.getLogger('katdal').setLevel(logging.ERROR)
     case = doc.get('case') or doc.get('witness') or {}
     if case.get('kind') in ('single', 'wild', 'concat', 'primitive', 'unpack', 'props', 'builtin', 'dataset', 'api', 'registry',
-                            'fill', 'v4delay'):
+                            'fill', 'v4delay', 'num', 'azel'):
         run_case(ctx, case)
         ctx.note_case(('replay', json.dumps(case, sort_keys=True, default=str)))
